@@ -674,7 +674,7 @@ def run(ctx):
         if getattr(ctx, "replay_file", None) and n_random == 0:
             continue
         extra = [] if ctx.tier == "quick" else ["--maxfiles", "14", "--deep", "150", "--probes", "18"]
-        seeds = [ctx.seed] if (ctx.tier == "quick" or prof == "release") else [ctx.seed, ctx.seed + 1000]
+        seeds = [ctx.seed] if (ctx.tier == "quick" or prof == "release") else [ctx.seed, ctx.seed + 1000, ctx.seed + 2000]
         for sd in seeds:
             rows = run_harness(ctx, paths["hx_modules"], ["--seed", str(sd), "--gen", str(n_random)] + extra, prof)
             if rows is None:
@@ -702,11 +702,14 @@ def run(ctx):
     }
     ctx.cov["oracle_failures_by_root_cause"] = dict(stats["oracle_failures"])
     ctx.cov["refuted_lemmas"] = ["C19_flat_namespace_collision_refuted", "C19_shared_qualifier_refuted"]
+    ctx.cov["repaired_findings"] = ["KF-C19-1", "KF-C19-2", "KF-C19-4", "KF-C19-5", "KF-C19-6", "KF-C19-7", "KF-C19-9"]
     ctx.cov["rule"] = ("structured families (chains 1-6, diamonds 2-4, cycles of length 1-6 behind tails 0-2, nested directories with "
                        "a repeated file name, one file under two dotted paths, mod.aelys packages, same global name in two modules, "
                        "`needs mod.symbol` incl. private names and cycles, two selected symbols, a nested module importing a file that lives next to "
                        "the entry (with and without a same-named file next to the module), missing module, private symbol, entry "
-                       "conflicts, cycle through the entry) + seeded random trees of 2-8 files; every tree is run once plain and once per "
+                       "conflicts, cycle through the entry, one file under every spelling, cycles closed through another spelling, symlinks and "
+                       "manifest paths leaving a module directory, a file and a directory of one name) + seeded random trees of 2-8 files (thorough: "
+                       "2-14 files, chains and a cycle 150 modules deep, three seeds, dev + release) + REPL sessions of 2-4 inputs; every tree is run once plain and once per "
                        "probe (importer, spelling) with up to 14 (structured: 24) probes drawn from bare / last-segment / alias / "
                        "previous-segment / non-alias qualifiers x the definitions of the files the import could mean; evaluations = runs of "
                        "run_file_full; distinct = distinct tree texts with >= 2 files")
